@@ -21,12 +21,12 @@ PROPERTY = "C19"
 MANIFEST_INFO = {
     "engine": "E",
     "design_ref": "DESIGN.md section 5, C19",
-    "technique": "bounded-exhaustive enumeration of all suite trees up to a node bound (4 suite kinds x 4 leaf labels, duplicates included) x all 16 id subsets, checked against a list-of-leaves reference model; testtools.run --list/--load-list driven in-process on a synthetic module for every small tree",
-    "level_text": "Every ordered tree with at most 5 (quick) / 6 (thorough) nodes over plain TestSuite, a custom subclass, a custom subclass with sort_tests and one with its own filter_by_ids (each possibly empty), with PlaceHolder and real TestCase leaves over ids {a,b,c} (duplicates occur), is built afresh and passed to iterate_tests, to filter_by_ids for every subset of {a,b,c,z} (order, identity and the chain of enclosing suite objects of every surviving leaf are compared), and to sorted_tests (ValueError iff duplicate ids, otherwise the documented order). For every tree of at most 4 nodes, testtools.run --list and --load-list (every subset, via a scratch file) are run in-process.",
+    "technique": "bounded-exhaustive enumeration of all suite trees up to a node bound (5 suite kinds x 4 leaf labels, duplicates included) x all 16 id subsets, checked against a list-of-leaves reference model; testtools.run --list/--load-list driven in-process on a synthetic module for every small tree",
+    "level_text": "Every ordered tree with at most 5 (quick) / 6 (thorough) nodes over plain TestSuite, a custom subclass, one with sort_tests, one with an in-place filter_by_ids and one whose filter_by_ids returns a new suite (each possibly empty), with PlaceHolder and real TestCase leaves over ids {a,b,c} (duplicates occur), is built afresh and passed to iterate_tests, to filter_by_ids for every subset of {a,b,c,z} (order, identity and the chain of enclosing suite objects of every surviving leaf are compared), and to sorted_tests (ValueError iff duplicate ids, otherwise the documented order). For every tree of at most 4 nodes, testtools.run --list and --load-list (every subset, via a scratch file) are run in-process.",
     "level_note": "The reference model is a recursive list of leaves; custom filter_by_ids is a correct in-place implementation; the position of empty custom suites in sorted_tests output is not constrained (they hold no tests).",
 }
 
-SUITE_KINDS = ("plain", "custom", "sorting", "filtering")
+SUITE_KINDS = ("plain", "custom", "sorting", "filtering", "copying")
 LEAF_LABELS = (("ph", "a"), ("ph", "b"), ("ph", "c"), ("tc", "a"))
 SUBSETS = [frozenset(s) for n in range(5) for s in itertools.combinations("abcz", n)]
 
@@ -49,6 +49,16 @@ class FilteringSuite(unittest.TestSuite):
         return self
 
 
+class CopyingSuite(unittest.TestSuite):
+    """Implements the filter_by_ids protocol the other documented way: returns a NEW suite and
+    leaves itself untouched."""
+
+    def filter_by_ids(self, test_ids):
+        new = CopyingSuite([filter_by_ids(t, test_ids) for t in self])
+        new._vt_origin = getattr(self, "_vt_origin", self)
+        return new
+
+
 RAN = []
 
 
@@ -68,7 +78,7 @@ class _TC(testtools.TestCase):
         return self._vt_id
 
 
-SUITE_CLASSES = {"plain": unittest.TestSuite, "custom": CustomSuite, "sorting": SortingSuite, "filtering": FilteringSuite}
+SUITE_CLASSES = {"plain": unittest.TestSuite, "custom": CustomSuite, "sorting": SortingSuite, "filtering": FilteringSuite, "copying": CopyingSuite}
 
 
 def gen_shapes(n):
@@ -192,7 +202,7 @@ def check_tree(tree, res, with_run):
             problems.append(("filter", "filter_by_ids(%r) left %r, expected %r" % (sorted(S), [x[0].id() for x in have], [x[0].id() for x in want])))
         else:
             for (leaf, chain), (_, wchain) in zip(have, want):
-                if [id(c) for c in chain] != [id(c) for c in wchain]:
+                if [id(getattr(c, "_vt_origin", c)) for c in chain] != [id(c) for c in wchain]:
                     problems.append(("filter-grouping", "filter_by_ids(%r): leaf %r now under %r, was under %r" % (sorted(S), leaf.id(), chain, wchain)))
                     break
     # sorted_tests
